@@ -1,6 +1,6 @@
 (** C04 — load, save, load again: foreign and legacy input is normalised without loss.
     Statements only; proofs live in Proofs/FontRTP.v and Proofs/FontToyP.v. *)
-Require Import Norad.Model.GlifSpec Norad.Model.GlifEncode Norad.Proofs.GlifEncodeP Norad.Proofs.GlifRoundtripP.
+Require Import Norad.Model.GlifSpec Norad.Model.GlifEncode Norad.Proofs.GlifEncodeP Norad.Proofs.GlifRoundtripP Norad.Proofs.GlifFullP.
 Require Import Norad.Model.Base Norad.Model.FontRT Norad.Model.FontToy Norad.Model.FontNum Norad.Model.FontReal
                Norad.Proofs.FontRTP Norad.Proofs.FontToyP Norad.Proofs.FontNumP Norad.Proofs.FontRealP.
 Open Scope N_scope.
@@ -77,7 +77,7 @@ Proof. exact fixed_point_example. Qed.
     [font_valid f] for the loaded font (to be reduced to: its glyphs are lib-free and canonical, once
     the base parts are closed — C13_load_only_valid, C15_load_returns_only_ok). *)
 Theorem C04_fixed_point_real : forall pf ff ff3 fi fh (K : codecs),
-  L1_glif pf ff ff3 fh -> codecs_ok K ->
+  L1_glif pf ff ff3 fi fh -> codecs_ok K ->
   forall o (t : tree (real_sig pf ff ff3 fi fh K)) (f : font (real_sig pf ff ff3 fi fh K)),
   load (real_sig pf ff ff3 fi fh K) t = Ok f -> font_valid (real_sig pf ff ff3 fi fh K) f ->
   exists t', save (real_sig pf ff ff3 fi fh K) o f = Ok t' /\
